@@ -267,6 +267,12 @@ def apply_op(W: World, op, variant=0):
                 if op[1] < len(W.users):
                     e = W.users[op[1]]
                     W.users.append(e() if alt else e.copy())
+            elif k == "wrap":
+                if op[1] < len(W.users):
+                    e = W.users[op[1]]
+                    v = variant % 5
+                    W.users.append(pp.Group(e) if v == 0 else e + pp.Literal("z") if v == 1 else pp.Suppress(e)
+                                   if v == 2 else pp.OneOrMore(e) if v == 3 else pp.Opt(e))
             elif k == "exprws":
                 if op[1] < len(W.users):
                     e = W.users[op[1]]
@@ -290,7 +296,7 @@ def run_real(W: World, case):
         for i, op in enumerate(case["setup"]):
             apply_op(W, op, i + len(op))
         entry = snapshot(W)
-        stack, ctx_err, out = [], False, []
+        stack, ctx_err, out, probes = [], False, [], []
         for i, c in enumerate(case["cmds"]):
             variant = i + len(c)
             if c == "enter":
@@ -322,9 +328,24 @@ def run_real(W: World, case):
             else:
                 err = apply_op(W, c, variant)
             out.append([snapshot(W), Sym(err), len(stack), ctx_err])
-        return entry, out
+            probes.append(_probe(W))
+        return entry, out, probes
     finally:
         W.hard_reset()
+
+
+def _probe(W):
+    """what freshly built expressions pick up from the settings right now (oracle only)"""
+    pp = W.pp
+    try:
+        with warnings.catch_warnings():
+            warnings.simplefilter("ignore")
+            lit = type((pp.Empty() + "qq").exprs[1]).__name__
+            kw = "".join(sorted(pp.Keyword("kw").identChars))
+            ws = "".join(sorted(pp.Word("ab").whiteChars))
+        return [lit, kw, ws]
+    except Exception as e:  # noqa: BLE001
+        return ["probe-raised", type(e).__name__, ""]
 
 
 _W = None
@@ -353,14 +374,14 @@ def _worker(case):
     """runs in a forked child (or inline): real execution + oracle; returns json-able dict"""
     W = world()
     try:
-        entry, tr = common.with_alarm(20, run_real, W, case)
+        entry, tr, probes = common.with_alarm(20, run_real, W, case)
     except common.CaseTimeout:
         W.hard_reset()
         return {"hang": True}
     line = dumps([Sym("settings-run")])[1:-1] + " " + dumps(cfg_sexp(W)) + " " + dumps(entry) + " " + dumps(
         [cmd_sexp(c) for c in case["cmds"]])
     o0 = obs(entry)
-    return {"line": line, "impl": dumps(tr), "problems": oracle(W, case, entry, tr),
+    return {"line": line, "impl": dumps(tr), "problems": oracle(W, case, entry, tr, probes),
             "depth": max([t[2] for t in tr] + [0]), "errs": sorted({str(t[1]) for t in tr}),
             "nt": any(obs(t[0]) != o0 for t in tr)}
 
@@ -373,7 +394,7 @@ def _synced_flags(snap):
     return [b[1] is not True or b[0] == w for b in snap[I_BUILTINS]]
 
 
-def oracle(W, case, entry, tr):
+def oracle(W, case, entry, tr, probes=None):
     """returns list of problems: dict(atom=<class of failure>, at=<command index>, expected=..., actual=..., theorem=...)"""
     probs = []
 
@@ -396,6 +417,15 @@ def oracle(W, case, entry, tr):
         if not isinstance(c, str) and c[0] == "setws":
             for fr in stack:
                 fr[1] = True
+        if probes is not None:
+            lit, kw, ws = probes[i]
+            if snap[I_LIT] < len(LIT_CLASSES) and lit != LIT_CLASSES[snap[I_LIT]]:
+                add("inline-literal-class-not-used", i, LIT_CLASSES[snap[I_LIT]], lit, "settings take effect (oracle only)")
+            if isinstance(snap[I_KW], str) and kw != "".join(sorted(set(snap[I_KW]))):
+                add("default-keyword-chars-not-used", i, "".join(sorted(set(snap[I_KW]))), kw, "settings take effect (oracle only)")
+            if isinstance(snap[I_WS], str) and ws != "".join(sorted(set(snap[I_WS]))):
+                add("default-whitespace-not-used-by-new-expression", i, "".join(sorted(set(snap[I_WS]))), ws,
+                    "default_ws_scope_partial")
         if c == "enter":
             if err != "ok":
                 add(f"enter-raises:{err}", i, "no exception from __enter__", err, "restore_total_and_exact")
@@ -478,6 +508,11 @@ def oracle(W, case, entry, tr):
                     want = ["".join(sorted(set(prev[I_WS]))), True] if e[1] is True else e
                     if snap[I_USERS] != prev[I_USERS] + [want]:
                         add("copy-wrong-whitespace", i, want, snap[I_USERS][-1:], "default_ws_scope_partial")
+            elif k == "wrap":
+                if c[1] < len(prev[I_USERS]):
+                    e = prev[I_USERS][c[1]]
+                    if snap[I_USERS] != prev[I_USERS] + [e]:
+                        add("composite-does-not-inherit-whitespace", i, e, snap[I_USERS][-1:], "default_ws_scope_partial")
         if (isinstance(c, str) or c[0] != "exprws") and snap[I_USERS][:len(prev[I_USERS])] != prev[I_USERS]:
             add("user-expression-changed", i, prev[I_USERS], snap[I_USERS], "users_untouched")
         prev = snap
@@ -534,6 +569,8 @@ def ws_behaviour_case(chars, in_context):
         for n, e, body in pre:
             expect("pre-existing " + n, e, body, before, "existing-user-expression-changed")
             expect("copy of pre-existing " + n, e.copy(), body, inside, "copy-does-not-follow-default")
+        for n, e, body in pre[:2]:
+            expect("new composite over pre-existing " + n, pp.Group(e), body, before, "composite-does-not-inherit-whitespace")
         expect("pre-existing with own whitespace", own, "ab", {"-"}, "existing-user-expression-changed")
         expect("copy of expression with own whitespace", own.copy(), "ab", {"-"}, "copy-of-own-whitespace-changed")
         for n, f, body in mk:
@@ -637,7 +674,7 @@ def gen_op(rng, W, n_users, mode_heavy=True):
             return ["lr", rng.choice(LR_CAPS), rng.random() < 0.45]
         return [k]
     k = rng.choice(["setws", "setws", "setkw", "lit", "verbose", "diag", "diag", "allwarn", "compat", "compatassign",
-                    "new", "copy", "exprws"])
+                    "new", "copy", "exprws", "wrap"])
     if k == "setws":
         return ["setws", rng.choice(WS_CHOICES)]
     if k == "setkw":
@@ -654,6 +691,8 @@ def gen_op(rng, W, n_users, mode_heavy=True):
         return ["compatassign", rng.choice(list(W.compat._all_names)), rng.random() < 0.5]
     if k == "copy":
         return ["copy", rng.randrange(n_users + 1)] if n_users else ["new"]
+    if k == "wrap":
+        return ["wrap", rng.randrange(n_users + 1)] if n_users else ["new"]
     if k == "exprws":
         return ["exprws", rng.randrange(n_users + 1), rng.choice(WS_CHOICES), rng.random() < 0.3] if n_users else ["new"]
     return [k]
@@ -663,7 +702,7 @@ def gen_case(rng, W, malformed=False):
     setup, users = [], 0
     for _ in range(rng.choice([0, 0, 1, 2, 3, 4])):
         op = gen_op(rng, W, users)
-        users += op[0] in ("new", "copy")
+        users += op[0] in ("new", "copy", "wrap")
         setup.append(op)
     cmds, depth = [], 0
     n = rng.randint(1, 14)
@@ -680,7 +719,7 @@ def gen_case(rng, W, malformed=False):
             depth = max(0, depth - 1)
         else:
             op = gen_op(rng, W, users)
-            users += op[0] in ("new", "copy")
+            users += op[0] in ("new", "copy", "wrap")
             cmds.append(op)
     if not malformed:
         cmds.extend(["exit"] * depth)
@@ -749,7 +788,7 @@ def shrink(case, atom, budget=200):
 def _is_known_witness_failure(W, entry):
     """does the registered witness still fail the recorded way?"""
     case = entry["witness"]
-    ent, tr = run_real(W, case)
+    ent, tr, _ = run_real(W, case)
     if not tr or str(tr[-1][1]) != "ok":
         return False, None
     sy = _synced_flags(ent)
@@ -766,7 +805,7 @@ def run(ctx):
     ctx.rule.append(
         "histories: entry configuration = 0..4 random setters from the pristine import state; body = 1..14 commands "
         "(45% mode setters incl. force=True and bad capacities, other setters incl. unknown flag names, expression "
-        "new/copy/set_whitespace_chars, nested enter/exit to depth 4) wrapped in a context; malformed stream = "
+        "new/copy/composite/set_whitespace_chars, nested enter/exit to depth 4) wrapped in a context; malformed stream = "
         "unbalanced enter/exit; exhaustive stream = 5 mode entry configurations x all sequences up to length L over "
         "10 mode commands; non-trivial = the body changes at least one observable setting; built-ins that are not in "
         "sync with the default at context entry (pristine line_start) are excluded from the restore oracle for blocks "
